@@ -94,7 +94,9 @@ def _copy(v):
 
 OPS = ['meta[k]=v', 'change.meta[k]=v', 'file.meta[k]=v', 'options[x]=v', 'preamble.options[indent]=v',
        'diff.options[x]=v', 'preamble=v', 'file.diff=v', 'meta.stats.nested=v', 'add_change', 'add_file', 'parse-again',
-       'generate_stats', 'to_bytes-twice', '==', 'repr', 'meta.options[spec-option]=v']
+       'generate_stats', 'to_bytes-twice', '==', 'repr', 'meta.options[spec-option]=v',
+       # an explicit container encoding that repeats / differs from the one it would inherit anyway
+       'change.encoding=utf-8', 'change.encoding=latin-1', 'file.encoding=utf-8', 'file.encoding=latin-1']
 OBSERVERS = {'to_bytes-twice', '==', 'repr'}
 
 
@@ -136,6 +138,10 @@ def apply_op(ctx, op, t, trees, shared, step, concrete=None):
         t.meta_section.options['line_endings'] = 'unix'
         if fl:
             fl.meta_section.options['line_endings'] = 'dos'
+    elif op.startswith('change.encoding=') and ch:
+        ch.encoding = op.split('=', 1)[1]
+    elif op.startswith('file.encoding=') and fl:
+        fl.encoding = op.split('=', 1)[1]
     elif op == 'add_change':
         t.add_change()
     elif op == 'add_file' and ch:
